@@ -276,6 +276,8 @@ def gen_ss(r, labels=None, vt=None, fields=None, m=None, tiefree=False, dt=None)
         pass
     elif vt == 'REAL':
         dt = r.choice(['float32', 'float64'])
+    elif vt == 'BINARY' and r.random() < .3:
+        dt = r.choice(['uint8', 'uint16', 'uint32', 'uint64', 'bool'])      # r8f: 0/1 samples as samplers hand them over; -1 does not fit these types
     else:
         dt = r.choice(['int8', 'int16', 'int32', 'int64', 'float32', 'float64'])
     if fields is None:
@@ -321,9 +323,14 @@ def history(ctx, r, lines, expect, meta):
         return
     lines.append(f'set 0 {t}'); expect.append('ok ' + t); meta.append(('set', list(src), None))
     others = {}
-    for step in range(r.randint(1, 6)):
+    # r8f: histories on ONE object.  With `stay_p` a non-mutating call is evaluated and checked, and the history then goes on
+    # with the RECEIVER (not with the result): lookups <-> in-place mutations on one object, incl. the objects reached from it
+    # (`variables`, `samples()` arrays, `record`), which is where a per-object cache would go stale.
+    stay_p = r.choice([0, 0, .5, .85])
+    ipw = ['relabel_ip', 'relabel_ip', 'change_ip', 'multi', 'multi', 'handles', 'keep', 'drop'] if stay_p else []
+    for step in range(r.randint(1, 6) + (r.randint(0, 4) if stay_p else 0)):
         op = r.choice(['aggregate', 'aggregate', 'slice', 'slice', 'truncate', 'lowest', 'filter', 'relabel', 'relabel_ip', 'keep', 'drop',
-                       'append_vars', 'change', 'change_ip', 'append_vec', 'concat', 'copy', 'first', 'data', 'samples'])
+                       'append_vars', 'change', 'change_ip', 'append_vec', 'concat', 'copy', 'first', 'data', 'samples', 'multi', 'handles'] + ipw)
         before = ss_text(ss)
         spec_line = None
         tie_key = None
@@ -455,6 +462,9 @@ def history(ctx, r, lines, expect, meta):
                 else:
                     like = f'({arr_src}, {nl!r})'
                 code = f'out = dimod.append_variables(ss, {like}, sort_labels={sort})'
+                if r.random() < .3:
+                    code = f'out = ss.append_variables({like}, sort_labels={sort})'      # the (deprecated) method form delegates to the function
+                    ctx.tick('append_vars through SampleSet.append_variables')
                 ctx.tick(f'append_vars {form}: ' + ('label clash' if any(v in ref.labels for v in nl) else 'one row per sample' if k == len(ref.rows)
                                                    else 'one row broadcast' if k == 1 and ref.rows else 'wrong number of rows'))
                 rows_w = '|'.join(','.join(rat(x) for x in row) or '-' for row in nr) or '~'
@@ -505,7 +515,7 @@ def history(ctx, r, lines, expect, meta):
                 empty_list = r.random() < .04
                 mixed = r.random() < .4             # sample sets with different data vectors (stack_arrays fills the gaps)
                 for j in range(k):
-                    vt2 = ref.vt if r.random() < .7 else r.choice(['SPIN', 'BINARY'])
+                    vt2 = ref.vt if r.random() < .7 or ss.record.sample.dtype.kind in 'ub' else r.choice(['SPIN', 'BINARY'])   # (-1 cannot be written into an unsigned / bool array)
                     labs2 = r.sample(ref.labels, len(ref.labels))
                     if mism and j == k - 1:
                         labs2 = labs2[:-1] if r.random() < .5 else labs2 + ['other']
@@ -544,7 +554,7 @@ def history(ctx, r, lines, expect, meta):
                     line = 'concat 0 ' + (','.join(['0'] + [str(j + 1) for j in range(k)]) if k >= 0 else '-')
             elif op == 'copy':
                 code = 'out = ss.copy()'; line = 'copy 0 0'; exp = ref.copy()
-            elif op in ('first', 'data', 'samples'):
+            elif op in ('first', 'data', 'samples', 'multi', 'handles'):
                 pass
         except TypeError:
             raise
@@ -552,6 +562,10 @@ def history(ctx, r, lines, expect, meta):
 
         if op in ('first', 'data', 'samples'):
             observe(ctx, r, op, ss, ref, hist_src, lines, expect, meta)
+            continue
+        if op in ('multi', 'handles'):
+            if not lookups(ctx, r, op, ss, ref, env, src, lines, expect, meta):
+                return
             continue
 
         # ---- run the real operation
@@ -565,6 +579,10 @@ def history(ctx, r, lines, expect, meta):
             got = ss_text(out)
         except (ValueError, KeyError, TypeError, IndexError) as e:
             ok = False; got = None; err = e
+        except Exception as e:  # noqa: any other class (StopIteration, AttributeError ...) is never a documented refusal
+            ok = False; got = None; err = e
+            if exp is None:
+                exp = 'undocumented-exception'
         ctx.tick(op + ('' if ok else ':raises'))
         full_src = hist_src + '\n' + code
         if op == 'concat' and line is not None:
@@ -578,6 +596,9 @@ def history(ctx, r, lines, expect, meta):
         bad = None
         if exp == 'any':
             pass
+        elif exp == 'undocumented-exception':
+            bad = f'call raised {exc_class(err)}: {err}, which is not a documented refusal (ValueError / KeyError / TypeError / IndexError)'
+            exp = None
         elif exp is None:
             if ok:
                 bad = f'call returned `{got}` but the operation is not defined for this input (expected an exception)'
@@ -599,7 +620,9 @@ def history(ctx, r, lines, expect, meta):
                     'keep': 'dimod.keep_variables', 'drop': 'dimod.drop_variables', 'append_vars': 'dimod.append_variables',
                     'change': 'SampleSet.change_vartype', 'change_ip': 'SampleSet.change_vartype', 'append_vec': 'dimod.append_data_vectors',
                     'concat': 'dimod.concatenate', 'copy': 'SampleSet.copy'}[op]
-            if exp is None:
+            if exp is None and not ok:
+                rp = PRE + hist_src + '\ntry:\n    ' + code.replace('\n', '\n    ') + '\nexcept (ValueError, KeyError, TypeError, IndexError):\n    pass\nexcept Exception as e:\n    assert False, repr(e)'
+            elif exp is None:
                 rp = PRE + hist_src + '\ntry:\n    ' + code.replace('\n', '\n    ') + '\nexcept (ValueError, KeyError, TypeError, IndexError):\n    pass\nelse:\n    assert False, "accepted"'
             elif not ok:
                 rp = PRE + full_src
@@ -620,6 +643,11 @@ def history(ctx, r, lines, expect, meta):
                 rp = PRE + full_src + f'\nassert {CHECK} == {expect_code(exp)}, rows_of(out)'
             ctx.fail('property', site, 'an input changed by the call' if 'input o' in bad else 'content', bad, repro=rp, detail=dict(source=full_src))
             return
+        stay = ok and not inplace and r.random() < stay_p
+        if stay and line is not None:
+            parts = line.split(' ')
+            parts[1 if parts[0] in ('concat', 'concatd') else 2] = '9'      # the result goes to another register: register 0 stays the receiver
+            line = ' '.join(parts)
         # ---- (i) correspondence line
         if line is not None:
             if ok:
@@ -637,6 +665,15 @@ def history(ctx, r, lines, expect, meta):
                 ctx.tick('changed-before-raise')     # e.g. change_vartype shifts the energies before it rejects the vartype
                 return
             continue
+        if stay:
+            # ---- continue the history on the receiver (it has just been looked into; it must answer the next calls as before)
+            ctx.tick('history continues on the receiver')
+            src.append(code)
+            continue
+        if inplace and env.get('_held') and op == 'change_ip':
+            env.pop('_held')             # (what a held array shows after an in-place change of the values is not specified here)
+        if not inplace:
+            env.pop('_held', None)       # handles belong to the object they were taken from
         # ---- continue the history from the result
         src.append(code + '\nss = out')
         if tie_key is not None and got != exp.text():
@@ -721,6 +758,118 @@ def observe(ctx, r, op, ss, ref, hist_src, lines, expect, meta):
             bad = f'samples({n}, sorted_by={by!r}) gives {got!r}, the definition {[row[0] for row in sel.rows]!r}'
             ctx.fail('property', 'SampleSet.samples', 'content', bad,
                      repro=PRE + hist_src + f'\nprint(ss.samples({n}, sorted_by={by!r}))\nassert False, {bad!r}', detail=dict(source=hist_src))
+
+
+# ------------------------------------------------------------------ r8f: label-addressed reads on one object along a history
+
+def _fr(x):
+    if isinstance(x, list):
+        return [_fr(y) for y in x]
+    return F(float(x))
+
+
+def lookups(ctx, r, op, ss, ref, env, src, lines, expect, meta):
+    """Label-addressed reads on the object and on the objects REACHED from it (`samples()` arrays taken earlier or now,
+    `variables`, `record`), anywhere in a history of lookups and in-place mutations on one object.  Reference: the plain lists of
+    `ref` — the value of label v in row i is `ref.rows[i][0][ref.labels.index(v)]`, whatever was looked up before.
+    Returns False when a violation was reported (the history stops)."""
+    hist_src = '\n'.join(src)
+    m, labels = len(ref.rows), ref.labels
+    g = dict(env); g['ss'] = ss
+    if op == 'handles' and not env.get('_held'):
+        code = 'sa_h = ss.samples(sorted_by=None); vs_h = ss.variables; rec_h = ss.record; it_h = sa_h[0:]'
+        exec(code, g)
+        for k in ('sa_h', 'vs_h', 'rec_h', 'it_h'):
+            env[k] = g[k]
+        env['_held'] = True
+        src.append(code)
+        ctx.tick('handles taken (samples array, variables, record)')
+        return True
+    held = bool(env.get('_held'))
+    val = lambda i, v: ref.rows[i][0][labels.index(v)]
+
+    def fail(site, what, rp):
+        ctx.fail('property', site, 'label-addressed read on one object along a history of lookups and in-place calls', what,
+                 repro=PRE + hist_src + '\n' + rp, detail=dict(source=hist_src))
+        return False
+
+    if op == 'handles':
+        # the objects reached from the sample set answer for its CURRENT labels
+        ctx.tick('handles re-read'); ctx.case(('handles', hist_src), nontrivial=True)
+        got = (list(g['vs_h']), list(ss.variables), [g['vs_h'].index(v) for v in labels], [v in g['vs_h'] for v in labels],
+               _fr(np.asarray(g['rec_h'].sample).tolist()) if labels and m else None,
+               [dict((k, F(float(x))) for k, x in g['sa_h'][i].items()) for i in range(m)],
+               len(g['sa_h']), [len(g['sa_h'][i]) for i in range(m)], [[F(float(x)) for x in g['it_h'][i].values()] for i in range(m)],
+               [list(g['sa_h'][i].keys()) for i in range(m)])
+        exp = (labels, labels, list(range(len(labels))), [True] * len(labels), [row[0] for row in ref.rows] if labels and m else None,
+               [dict(zip(labels, row[0])) for row in ref.rows],
+               m, [len(labels)] * m, [list(row[0]) for row in ref.rows], [list(labels)] * m)
+        if got != exp:
+            return fail('SampleSet.variables / samples() / record', f'held variables/samples()/record answer {got!r}, the sample set holds {exp!r}',
+                        f'assert list(vs_h) == list(ss.variables) == {labels!r}\nassert [vs_h.index(v) for v in {labels!r}] == list(range({len(labels)}))\n'
+                        f'assert [[float(sa_h[i][v]) for v in {labels!r}] for i in range({m})] == {[[float(x) for x in row[0]] for row in ref.rows]!r}')
+        return True
+
+    # ---- a multi-index read  <array>[rows, cols]
+    if held and r.random() < .6:
+        via, base = r.choice(['sa_h', 'it_h']), list(range(m))
+    else:
+        n = r.choice([0, 1, 2, 5])
+        via, base = r.choice([('ss.samples(sorted_by=None)', list(range(m))), ('ss.samples(sorted_by=None)', list(range(m))),
+                              (f'ss.samples({n}, sorted_by=None)', list(range(m))[:n]), ('ss.samples(sorted_by=None)[::-1]', list(range(m))[::-1])])
+    k = len(base)
+    kind = r.choice(['all', 'all', 'slice', 'int', 'list', 'array']) if k else r.choice(['all', 'slice', 'list'])
+    if kind == 'all':
+        rsrc, idx = ':', base
+    elif kind == 'slice':
+        a, b, c = r.choice([None, 0, 1, -2]), r.choice([None, 1, 3, -1]), r.choice([None, 1, 2, -1])
+        rsrc = f"{'' if a is None else a}:{'' if b is None else b}:{'' if c is None else c}"; idx = base[slice(a, b, c)]
+    elif kind == 'int':
+        i = r.randrange(-k, k); rsrc, idx = repr(i), [base[i]]
+    else:
+        sel = [r.randrange(-k, k) for _ in range(r.randint(0, 3))] if k else []
+        rsrc = repr(sel) if kind == 'list' else f'np.array({sel!r}, dtype=int)'; idx = [base[i] for i in sel]
+    single = bool(labels) and r.random() < .25
+    if single:
+        cols = r.choice(labels)
+        exp = [val(i, cols) for i in idx]
+        if kind == 'int':
+            exp = exp[0]
+    else:
+        cols = [r.choice(labels) for _ in range(r.randint(0, len(labels) + 1))] if labels and r.random() < .3 else r.sample(labels, r.randint(0, len(labels)))
+        if r.random() < .08:
+            cols = cols + ['nope']
+        exp = None if 'nope' in cols else [[val(i, v) for v in cols] for i in idx]
+        if exp is not None and kind == 'int':
+            exp = exp[0]
+    code = f'out = {via}[{rsrc}, {cols!r}]'
+    try:
+        exec(code, g)
+        got = _fr(np.asarray(g['out']).tolist())
+        if isinstance(exp, list) and exp and isinstance(exp[0], list) and not exp[0]:
+            got = [list(x) for x in got]
+    except KeyError:
+        got = None
+    except Exception as e:  # noqa
+        got = ('raised', type(e).__name__, str(e))
+    tag = ('single column' if single else 'multi-column') + (' through a held array' if via in ('sa_h', 'it_h') else '')
+    ctx.tick(f'samples()[rows, cols] {tag}' + ('' if got is not None else ':raises'))
+    ctx.case(('multi', code, ss_text(ss), held), nontrivial=bool(idx) and (single or bool(cols)))
+    if got != exp:
+        if isinstance(got, tuple):
+            rp = code
+        elif exp is None:
+            rp = f'try:\n    {code}\nexcept KeyError:\n    pass\nelse:\n    assert False, ("accepted a label the sample set does not have", out)'
+        else:
+            fl = (lambda x: [fl(y) for y in x] if isinstance(x, list) else float(x))
+            rp = f'{code}\nassert np.asarray(out).tolist() == {fl(exp)!r}, np.asarray(out).tolist()'
+        return fail('SamplesArray.__getitem__', f'`{code}` gives {got!r}; under these labels the sample set holds {exp!r}', rp)
+    if not single:
+        mat = None if exp is None else ([exp] if kind == 'int' else exp)
+        lines.append(f"getmulti 0 {','.join(map(str, idx)) or '-'} {','.join(lab(v) for v in cols) or '-'}")
+        expect.append('err' if mat is None else f'ok {len(mat)}x{len(cols)} ' + ('|'.join(','.join(rat(x) for x in row) or '-' for row in mat) or '-'))
+        meta.append(('getmulti', [hist_src + '\n' + code], None))
+    return True
 
 
 # ------------------------------------------------------------------ as_samples
